@@ -1,8 +1,9 @@
 #!/bin/bash
 # builds the framework binaries from files on disk only (offline)
 set -e
-cd /verif/tools
+cd "$(dirname "$0")/tools"
+V="$(cd .. && pwd)"
 export GOFLAGS=-mod=mod GOPROXY=off GOSUMDB=off GOTOOLCHAIN=local
-mkdir -p /verif/bin /verif/evidence /verif/replays
-go build -o /verif/bin/vcheck ./cmd/vcheck
-go build -o /verif/bin/zinstr ./cmd/zinstr
+mkdir -p "$V/bin" "$V/evidence" "$V/replays"
+go build -o "$V/bin/vcheck" ./cmd/vcheck
+go build -o "$V/bin/zinstr" ./cmd/zinstr
